@@ -74,18 +74,31 @@ def _apply_real(out, sections, op):
         sections[op[1]].clear()
     elif kind == "cn":
         sections[op[1]].clear(op[2])
+    elif kind == "ind":
+        sections[op[1]].indent(op[2])  # sets the indentation of that section from now on
     else:
         raise ValueError(op)
 
 
-def _apply_ghost(ghost, op):
+def _apply_ghost(ghost, op, inds=None):
     kind = op[0]
+    if inds is not None:
+        while len(inds) < len(ghost):
+            inds.append(0)
+
+    def lines(sec, text):
+        ind = inds[sec] if inds is not None else 0
+        return [(" " * ind + l) if l else l for l in _visible(text).split("\n")]
     if kind == "new":
         ghost.append([])
+        if inds is not None:
+            inds.append(0)
+    elif kind == "ind":
+        inds[op[1]] = op[2]
     elif kind == "w":
-        ghost[op[1]].extend(_visible(op[2]).split("\n"))
+        ghost[op[1]].extend(lines(op[1], op[2]))
     elif kind == "o":
-        ghost[op[1]][:] = _visible(op[2]).split("\n")
+        ghost[op[1]][:] = lines(op[1], op[2])
     elif kind == "c":
         del ghost[op[1]][:]
     elif kind == "cn":
@@ -121,6 +134,8 @@ def _run(ops, width, initial_sections, check_from):
         out, stream = _new_output(True)
         sections = [out.section() for _ in range(initial_sections)]
         ghost = [[] for _ in range(initial_sections)]
+        inds = [0] * initial_sections
+        indented = any(o[0] == "ind" for o in ops)
         partial = False
         res = {"ok": True, "step": None, "what": "", "cls": "", "state": None}
         for i, op in enumerate(ops):
@@ -132,14 +147,14 @@ def _run(ops, width, initial_sections, check_from):
                 res.update(ok=False, step=i, what="operation %r raised %r" % (op, e),
                            cls=("partial-clear" if partial else "write-overwrite-clear") + "|raises")
                 return res
-            _apply_ghost(ghost, op)
+            _apply_ghost(ghost, op, inds)
             if i < check_from:
                 continue
             text = stream.fetch()
             term = Term(width).feed(text)
             exp = _expected_rows(ghost, width)
             got = term.rows()
-            tag = "partial-clear" if partial else "write-overwrite-clear"
+            tag = "partial-clear" if partial else ("indented" if indented else "write-overwrite-clear")
             if term.unknown:
                 res.update(ok=False, step=i, what="unexpected control sequence %r" % (term.unknown[:3],), cls=tag + "|control")
                 return res
@@ -153,7 +168,11 @@ def _run(ops, width, initial_sections, check_from):
                 return res
             for k, s in enumerate(sections):
                 want = "".join(l + "\n" for l in ghost[k])
-                if s.remove_format(s.content) != want:
+                have = s.remove_format(s.content)
+                if indented:
+                    # (an empty line of an indented section is stored as blanks: invisible, not part of the property)
+                    have = "".join(l.rstrip(" ") + "\n" for l in have.split("\n")[:-1]) if have else have
+                if have != want:
                     res.update(ok=False, step=i, cls=tag + "|content",
                                what="after %r section %d reports content %r, expected %r" % (op, k, s.content, want))
                     return res
@@ -224,6 +243,8 @@ def _short(ops):
             out.append("new")
         elif o[0] == "c":
             out.append("c%d" % o[1])
+        elif o[0] == "ind":
+            out.append("ind%d=%d" % (o[1], o[2]))
         else:
             out.append("c%d(%d)" % (o[1], o[2]))
     return " ".join(out)[:160]
@@ -361,6 +382,34 @@ def bounded(ctx):
             if not r["ok"]:
                 fails.add(r["cls"], r["what"], {"ops": ops[: r["step"] + 1], "width": width, "sections": 1})
         ctx.done(exhaustive=False, note=fails.note())
+
+    # ---- 2b. sections with an indentation of their own
+    n = 200 if quick else 4000
+    ctx.check("random_indented", "%d seeded sequences of length 5..30 over 1-3 sections, widths 10/20/80, write_line / overwrite / "
+                                 "clear() plus indent(n) on a section (n in 0,2,4): every stacked line is shown with the "
+                                 "indentation its own section had when it was written, sections below are re-printed as they were" % n)
+    fails = _Failures(ctx)
+    for _ in range(n):
+        if ctx.out_of_time():
+            break
+        width = ctx.rng.choice([10, 20, 80])
+        ops, wide = _random_ops(ctx.rng, width - 4, ctx.rng.randint(5, 30), False, 3)
+        # sprinkle indentation changes (the section must exist at that point)
+        out_ops = []
+        nsec = 1
+        for o in ops:
+            if ctx.rng.random() < 0.2:
+                out_ops.append(("ind", ctx.rng.randrange(nsec), ctx.rng.choice([0, 2, 4])))
+            out_ops.append(o)
+            if o[0] == "new":
+                nsec += 1
+        if not any(o[0] == "ind" for o in out_ops):
+            out_ops.insert(0, ("ind", 0, 2))
+        r = _run(out_ops, width, 1, 0)
+        ctx.case([width, out_ops], nontrivial=any(o[0] == "ind" and o[2] > 0 for o in out_ops), sample="w=%d %s" % (width, _short(out_ops)))
+        if not r["ok"]:
+            fails.add(r["cls"], r["what"], {"ops": out_ops[: r["step"] + 1], "width": width, "sections": 1})
+    ctx.done(exhaustive=False, note=fails.note())
 
     # ---- 3. plain outputs
     ctx.check("plain", "all histories up to depth %d over <= 2 sections (width 10) and %d seeded random sequences up to length 40 "
